@@ -197,7 +197,16 @@ fn marked_block(id: u32) -> BlockInfo {
         1 => Timestamp::from_nanos(0),
         _ => Timestamp::from_nanos(u64::MAX),
     };
+    // every fifth step supplies a block whose chain id is blank: its identity is then carried by the time
+    if id % 5 == 4 {
+        return BlockInfo { height, time: Timestamp::from_seconds(2_000_000 + id as u64), chain_id: if id % 2 == 0 { String::new() } else { "  ".to_string() } };
+    }
     BlockInfo { height, time, chain_id: format!("chain-{}", id) }
+}
+
+fn marked_block_id(blk: &BlockInfo) -> Option<u32> {
+    let id = if blk.chain_id.trim().is_empty() { blk.time.seconds().checked_sub(2_000_000).map(|x| x as u32) } else { blk.chain_id.strip_prefix("chain-").and_then(|n| n.parse::<u32>().ok()) };
+    id.filter(|id| *blk == marked_block(*id))
 }
 
 // ---------------------------------------------------------------- observation
@@ -280,7 +289,7 @@ where
         "block".into(),
         if o.block_is_default {
             None
-        } else if let Some(id) = blk.chain_id.strip_prefix("chain-").and_then(|n| n.parse::<u32>().ok()).filter(|id| blk == marked_block(*id)) {
+        } else if let Some(id) = marked_block_id(&blk) {
             Some(id)
         } else {
             Some(u32::MAX)
